@@ -11,10 +11,15 @@ import (
 	"encoding/base32"
 	"encoding/binary"
 	"encoding/hex"
+	"encoding/json"
 	"errors"
 	"fmt"
 	"math/bits"
+	"runtime"
 	"strings"
+	"sync"
+	"sync/atomic"
+	"time"
 
 	"github.com/tonkeeper/tongo"
 	"github.com/tonkeeper/tongo/boc"
@@ -145,7 +150,172 @@ func init() {
 		err := a.UnmarshalJSON(in.Bytes)
 		return c17AccOut(a, err)
 	}
+	execs["c17.majson"] = func(in sx.V) sx.V {
+		a := c17Acc(in.List[0], in.List[1])
+		b, err := json.Marshal(a.ToMsgAddress())
+		return errOr(err, sx.Bytes(b))
+	}
+	execs["c17.majsonany"] = func(in sx.V) sx.V {
+		b, err := json.Marshal(c17StdAddr(in))
+		return errOr(err, sx.Bytes(b))
+	}
+	execs["c17.maunjson"] = func(in sx.V) sx.V {
+		var m tlb.MsgAddress
+		if err := m.UnmarshalJSON(in.Bytes); err != nil {
+			return sx.A("err")
+		}
+		return sx.L(c17MaSx(m), c17AccOptOut(ton.AccountIDFromTlb(m)))
+	}
+	execs["c17.conc"] = execC17Conc
 	gens["C17"] = genC17
+}
+
+func c17AnySx(ex bool, d, p uint32) []sx.V {
+	if !ex {
+		return []sx.V{sx.B(false), sx.N(0), sx.N(0)}
+	}
+	return []sx.V{sx.B(true), sx.N(uint64(d)), sx.N(uint64(p))}
+}
+
+// canonical form of a decoded tlb.MsgAddress
+func c17MaSx(m tlb.MsgAddress) sx.V {
+	switch m.SumType {
+	case "AddrNone":
+		return sx.A("none")
+	case "AddrExtern":
+		if m.AddrExtern == nil {
+			return sx.L(sx.A("harness-error"), sx.A("nil-extern"))
+		}
+		return sx.L(sx.A("ext"), sx.Bits(bitsOf(m.AddrExtern)))
+	case "AddrStd":
+		an := m.AddrStd.Anycast
+		vs := append([]sx.V{sx.A("std")}, c17AnySx(an.Exists, an.Value.Depth, an.Value.RewritePfx)...)
+		return sx.L(append(vs, sx.Z(int64(m.AddrStd.WorkchainId)), sx.Bytes(m.AddrStd.Address[:]))...)
+	case "AddrVar":
+		if m.AddrVar == nil {
+			return sx.L(sx.A("harness-error"), sx.A("nil-var"))
+		}
+		an := m.AddrVar.Anycast
+		vs := append([]sx.V{sx.A("var")}, c17AnySx(an.Exists, an.Value.Depth, an.Value.RewritePfx)...)
+		return sx.L(append(vs, sx.N(uint64(m.AddrVar.AddrLen)), sx.Z(int64(m.AddrVar.WorkchainId)), sx.Bits(bitsOf(&m.AddrVar.Address)))...)
+	}
+	return sx.L(sx.A("harness-error"), sx.A("sumtype"))
+}
+
+// every parser of the property on one string, as the sequential kinds print it
+func c17ParseAll(h sx.V) sx.V {
+	q := sx.Bytes(append(append([]byte{'"'}, h.Bytes...), '"'))
+	return sx.L(safeExec("c17.parsehuman", h), safeExec("c17.parseacc", h), safeExec("c17.parseraw", h),
+		safeExec("c17.parseaddr", h), safeExec("c17.unjson", q))
+}
+
+// c17.conc: (strings, adnl strings, workers, passes).  The strings are parsed once
+// sequentially, then by `workers` goroutines at the same time (each goroutine walks
+// the list `passes` times from its own offset, so valid strings and their
+// single-character substitutions are inside the parsers simultaneously).  Result:
+// the sequential results and the number of concurrent results that differ from
+// them (plus the first such case).  The parsers are pure: the number must be 0.
+func execC17Conc(in sx.V) sx.V {
+	hs, ads := in.List[0].List, in.List[1].List
+	workers, passes := in.List[2].I(), in.List[3].I()
+	if runtime.GOMAXPROCS(0) < 8 {
+		defer runtime.GOMAXPROCS(runtime.GOMAXPROCS(8))
+	}
+	seqH := make([]sx.V, len(hs))
+	seqS := make([]string, len(hs))
+	for i, h := range hs {
+		seqH[i] = c17ParseAll(h)
+		seqS[i] = seqH[i].String()
+	}
+	seqA := make([]sx.V, len(ads))
+	seqAS := make([]string, len(ads))
+	for i, a := range ads {
+		seqA[i] = safeExec("c17.parseadnl", a)
+		seqAS[i] = seqA[i].String()
+	}
+	var dev atomic.Int64
+	var mu sync.Mutex
+	var first []sx.V
+	note := func(in sx.V, got string) {
+		if dev.Add(1) == 1 {
+			mu.Lock()
+			first = []sx.V{sx.A("first"), in, sx.Str(got)}
+			mu.Unlock()
+		}
+	}
+	// direct calls in a tight loop (most of the time is spent inside the parsers)
+	type direct struct {
+		s            string
+		hum, acc, js ton.AccountID
+		eh, ea, ej   bool
+	}
+	ds := make([]direct, len(hs))
+	for i, h := range hs {
+		d := direct{s: string(h.Bytes)}
+		var err error
+		d.hum, err = ton.AccountIDFromBase64Url(d.s)
+		d.eh = err != nil
+		d.acc, err = ton.ParseAccountID(d.s)
+		d.ea = err != nil
+		d.ej = d.js.UnmarshalJSON([]byte(`"`+d.s+`"`)) != nil
+		ds[i] = d
+	}
+	var wg sync.WaitGroup
+	var t0 time.Time
+	start := make(chan struct{})
+	for w := 0; w < workers; w++ {
+		wg.Add(1)
+		go func(w int) {
+			defer wg.Done()
+			defer func() {
+				if r := recover(); r != nil {
+					note(sx.A("panic"), fmt.Sprint(r))
+				}
+			}()
+			<-start
+			for p := 0; p < passes && time.Since(t0) < 5*time.Second; p++ { // bounded also on a loaded machine
+				for k := range ds {
+					d := &ds[(k+w)%len(ds)]
+					if a, err := ton.AccountIDFromBase64Url(d.s); (err != nil) != d.eh || a != d.hum {
+						note(sx.Str(d.s), "AccountIDFromBase64Url: "+c17AccOut(a, err).String())
+					}
+					if a, err := ton.ParseAccountID(d.s); (err != nil) != d.ea || a != d.acc {
+						note(sx.Str(d.s), "ParseAccountID: "+c17AccOut(a, err).String())
+					}
+					if p%8 == 0 {
+						var a ton.AccountID
+						if err := a.UnmarshalJSON([]byte(`"` + d.s + `"`)); (err != nil) != d.ej || a != d.js {
+							note(sx.Str(d.s), "UnmarshalJSON: "+c17AccOut(a, err).String())
+						}
+					}
+				}
+				if p%16 != 0 {
+					continue
+				}
+				// every parser, through the same code as the sequential kinds
+				for k := range hs {
+					i := (k + w) % len(hs)
+					if got := c17ParseAll(hs[i]).String(); got != seqS[i] {
+						note(hs[i], got)
+					}
+				}
+				for k := range ads {
+					i := (k + w) % len(ads)
+					if got := safeExec("c17.parseadnl", ads[i]).String(); got != seqAS[i] {
+						note(ads[i], got)
+					}
+				}
+			}
+		}(w)
+	}
+	t0 = time.Now()
+	close(start)
+	wg.Wait()
+	out := []sx.V{sx.L(seqH...), sx.L(seqA...), sx.N(uint64(dev.Load()))}
+	if first != nil {
+		out = append(out, sx.L(first...))
+	}
+	return sx.L(out...)
 }
 
 type c17NoDNS struct{}
@@ -483,6 +653,79 @@ func c17Account(c *Ctx, a ton.AccountID, cls string) {
 		back("c17.untlb", sx.Bits(tb.Bits+randBits(c.R, c.R.Intn(40))), "tlb-roundtrip")
 	}
 	back("c17.fromtlb", sx.L(sx.B(false), sx.N(0), sx.N(0), wcv, adv), "tlb-roundtrip")
+	// JSON form of the TL-B address (what a message / transaction shows when served as JSON)
+	mj := c.Emit("c17.majson", acc, cls)
+	if string(mj.Bytes) != `"`+string(raw.Bytes)+`"` {
+		c.Fail("c17.majson", acc, "tlb-json-format", "MarshalJSON of addr_std is not the quoted <workchain>:<64 hex>")
+	}
+	wantMa := sx.L(sx.L(sx.A("std"), sx.B(false), sx.N(0), sx.N(0), wcv, adv), c17AccSx(a)).String()
+	if got := c.Emit("c17.maunjson", mj, cls).String(); got != wantMa {
+		c.Fail("c17.maunjson", mj, "tlb-json-roundtrip", "AccountID -> ToMsgAddress -> JSON -> MsgAddress -> AccountIDFromTlb: want "+wantMa+" got "+got)
+	}
+	// the same through encoding/json, and the TL-B bits / the JSON text must be stable
+	m0 := a.ToMsgAddress()
+	var m1 tlb.MsgAddress
+	if js, err := json.Marshal(m0); err != nil {
+		c.Fail("c17.majson", acc, "tlb-json-roundtrip", "json.Marshal failed")
+	} else if err := json.Unmarshal(js, &m1); err != nil {
+		c.Fail("c17.maunjson", sx.Bytes(js), "tlb-json-roundtrip", "json.Unmarshal failed")
+	} else {
+		js2, _ := json.Marshal(m1)
+		b0, b1 := c17MarshalBits(m0), c17MarshalBits(m1)
+		if !bytes.Equal(js, js2) || b0.String() != b1.String() || b0.K != sx.KBits {
+			c.Fail("c17.maunjson", sx.Bytes(js), "tlb-json-roundtrip", "TL-B bits or JSON text changed across the JSON form: "+b0.String()+" -> "+b1.String()+", "+string(js2))
+		}
+	}
+}
+
+// MsgAddress.UnmarshalJSON on hand-made strings: the std / var / extern / none boundaries
+func c17MaJsonVariants(c *Ctx, a ton.AccountID) {
+	r := c.R
+	hx := hex.EncodeToString(a.Address[:])
+	emit := func(t, cls string) sx.V { return c.Emit("c17.maunjson", sx.Str(t), "majv,"+cls) }
+	q := func(t string) string { return `"` + t + `"` }
+	for _, w := range []string{"-128", "-129", "127", "128", "-1", "0", "+5", "-0", "007", "-0128", "2147483647", "2147483648", "-2147483648", "-2147483649", "", "-", "x", "1e2", " 1"} {
+		emit(q(w+":"+hx), "wc"+w)
+	}
+	wc := fmt.Sprint(int8(a.Workchain))
+	emit(wc+":"+hx, "noquotes")
+	emit(`""`+wc+":"+hx+`"`, "quotes")
+	emit(`"`+wc+":"+hx, "quotes")
+	emit(``, "empty")
+	emit(`"`, "empty")
+	emit(`""`, "empty")
+	emit(`""""`, "empty")
+	emit(q(wc+":"+strings.ToUpper(hx)), "upper")
+	emit(q(wc+":"+hx[:63]), "hex63")
+	emit(q(wc+":"+hx+"0"), "hex65")
+	emit(q(wc+":"+hx[:62]), "hex62")
+	emit(q(wc+":"+hx[:63]+"_"), "hex63_")
+	emit(q(wc+":"+hx[:62]+[]string{"4_", "C_", "c_", "2_", "6_", "a_", "E_", "1_", "f_", "8_", "0_", "g_"}[r.Intn(12)]), "tag")
+	emit(q(wc+":"+hx+"_"), "hex64_")
+	emit(q(wc+":"+hx[:63]+"g"), "nonhex")
+	emit(q(wc+":"), "emptyaddr")
+	emit(q(wc+":_"), "emptyaddr")
+	emit(q("1000:"+hx[:r.Intn(64)]), "var")
+	emit(q("-1000:"+hx[:2*r.Intn(32)]+"8_"), "var")
+	emit(q(":"+hx), "emptywc")
+	emit(q(wc+":"+hx+":"), "colons")
+	emit(q(wc+":"+hx+":Anycast(1,1):"), "colons")
+	emit(q(wc+"::"+hx), "colons")
+	// extern
+	for _, e := range []string{hx, hx[:r.Intn(64)], "ABC", "abc_", "8_", "0_", "_", "4_", "C_", "xyz", " ", "A B"} {
+		emit(q(e), "extern")
+	}
+	// anycast
+	d, p := 1+r.Intn(30), r.Intn(1<<16)
+	for _, an := range []string{fmt.Sprintf("Anycast(%d,%d)", d, p), "Anycast(30,1073741823)", "Anycast(4294967295,4294967295)",
+		"Anycast(4294967296,1)", "Anycast(1,4294967296)", "Anycast(0,0)", "Anycast(03,005)", "Anycast(3,5", "Anycast3,5)", "Anycast()",
+		"Anycast(3)", "Anycast(3,)", "Anycast(,5)", "Anycast(3,5,7)", "Anycast(3,5x)", "Anycast(3;5)", "Anycast(1_0,1)", "Anycast(1,1_0)",
+		"anycast(3,5)", "Anycast(-1,5)", "Anycast(+1,5)", "Anycast(3,5))", "Anycast((3,5)", "Anycast(99999999999999999999,1)", "Anycast(", ")", ""} {
+		emit(q(wc+":"+hx+":"+an), "anycast")
+		if r.Chance(30) {
+			emit(q("300:"+hx[:10]+":"+an), "anycast-var")
+		}
+	}
 }
 
 // raw-form parser on hand-made strings: zero filling, signs, ranges, malformed
@@ -901,6 +1144,12 @@ func c17Anycast(c *Ctx) {
 					c.Fail("c17.fromtlb", in, "anycast-rewrite", "the first depth bits must become rewrite_pfx and the rest stay: got "+got.String())
 				}
 			}
+			// through the JSON form of the TL-B address
+			aj := c.Emit("c17.majsonany", in, cls)
+			wantAj := sx.L(sx.L(sx.A("std"), sx.B(true), sx.N(uint64(d)), sx.N(uint64(p)), sx.Z(wc), sx.Bytes(addr[:])), got).String()
+			if back := c.Emit("c17.maunjson", aj, cls).String(); back != wantAj {
+				c.Fail("c17.maunjson", aj, "tlb-json-roundtrip", "addr_std with anycast through JSON: want "+wantAj+" got "+back)
+			}
 			// through the cell encoding
 			enc := c.Emit("c17.tlbany", in, cls)
 			if enc.K == sx.KBits && d >= 1 && d <= 30 && p < 1<<d {
@@ -1023,6 +1272,59 @@ func c17AdnlCase(c *Ctx, t, cls string) {
 	c.Emit("c17.parseadnl", sx.Str(t), cls)
 }
 
+// the parsers called from several goroutines at once (guarded child: a hang or crash is a
+// reported outcome): valid strings next to their single-character substitutions, raw forms,
+// ADNL strings.  The results must be the sequential ones.
+func c17Concurrent(c *Ctx, sample []ton.AccountID) {
+	r := c.R
+	for round := 0; round < c.Scale(3, 6); round++ {
+		var hs, ads []sx.V
+		for i := 0; i < 12; i++ {
+			a := sample[r.Intn(len(sample))]
+			h := a.ToHuman(r.Bool(), r.Bool())
+			if r.Bool() {
+				h = c17StdAlphabet(h)
+			}
+			hs = append(hs, sx.Str(h))
+			// one substituted character: in the address part (the checksum characters of the
+			// valid string stay) or anywhere
+			pos := r.Intn(48)
+			if i%2 == 0 {
+				pos = 3 + r.Intn(40)
+			}
+			ch := c17UrlAlphabet[r.Intn(64)]
+			for c17Digit(ch) == c17Digit(h[pos]) {
+				ch = c17UrlAlphabet[r.Intn(64)]
+			}
+			hs = append(hs, sx.Str(h[:pos]+string(ch)+h[pos+1:]))
+			if i%4 == 0 {
+				hs = append(hs, sx.Str(a.ToRaw()))
+			}
+		}
+		for i := 0; i < 6; i++ {
+			var a ton.Bits256
+			copy(a[:], r.Bytes(32))
+			t := liteclient.ADNLAddressToBase32(a)
+			ads = append(ads, sx.Str(t))
+			pos := r.Intn(55)
+			ch := c17B32[r.Intn(32)]
+			for ch == t[pos] {
+				ch = c17B32[r.Intn(32)]
+			}
+			ads = append(ads, sx.Str(t[:pos]+string(ch)+t[pos+1:]))
+		}
+		in := sx.L(sx.L(hs...), sx.L(ads...), sx.Nat(16), sx.Nat(c.Scale(4000, 12000)))
+		out := c.EmitGuarded("c17.conc", in, "conc")
+		if out.K != sx.KL || len(out.List) != 3 || out.List[2].U64() != 0 {
+			what := "outcome " + trunc(out.String(), 80)
+			if out.K == sx.KL && len(out.List) == 4 {
+				what = out.List[2].Int.String() + " deviating results; first: " + trunc(out.List[3].String(), 400)
+			}
+			c.Fail("c17.conc", in, "concurrent-parse", "parsers called from 16 goroutines at once must return the sequential results: "+what)
+		}
+	}
+}
+
 func c17Json(c *Ctx) {
 	r := c.R
 	for i := 0; i < c.Scale(20, 200); i++ {
@@ -1116,6 +1418,16 @@ func genC17(c *Ctx) {
 			c17HumanMalformed(c, a)
 		}
 	}
+	// ALL int8 workchains through every form (the boundary values are members, not samples)
+	for wc := -128; wc <= 127; wc++ {
+		addr, ac := c17PickAddr(r)
+		c17Account(c, ton.AccountID{Workchain: int32(wc), Address: addr}, ac)
+	}
+	for i := 0; i < c.Scale(12, 120); i++ {
+		addr, _ := c17PickAddr(r)
+		c17MaJsonVariants(c, ton.AccountID{Workchain: c17PickWc(r, true), Address: addr})
+	}
+	c17Concurrent(c, sample)
 	// single-character substitutions: all 48 x (63 + 2) on the implementation, a sample through the model
 	nsub := c.Scale(4, 16)
 	for i := 0; i < nsub && i < len(sample); i++ {
